@@ -132,6 +132,12 @@ func kvSysFromJob(j Job) Sys {
 		sys := &KVSys[int, int]{Kind: kind, CmpN: cmpN, VCmpN: vcmpN, N: j.p("n", u), KU: intU(u), VU: intU(j.p("vu", u)),
 			KCmp: intCmp(cmpN), VCmp: intCmp(vcmpN), PropsL: kvProps,
 			Probes: func(live []int) []int { return []int{-2, u + 2} }}
+		if j.p("jsonops", 0) == 1 && kind == "hashbidimap" {
+			// only inputs whose loaded state is deterministic (no repeated values: the library folds Put over
+			// a Go map range); tree-based maps get no FromJSON operation at all — their shape after a load
+			// depends on the map order, which would break the determinism the search relies on (C12 covers them)
+			sys.JSONTexts = []string{`{}`, `null`, `{"1":1,"0":2}`, `{"0":0}`}
+		}
 		if j.s("ctor", "") == "default" && kind == "treebidimap" {
 			sys.Label = "/New()"
 			sys.KCmp, sys.VCmp = intCmp("nat"), intCmp("nat")
@@ -142,6 +148,9 @@ func kvSysFromJob(j Job) Sys {
 	sys := &KVSys[int, Val]{Kind: kind, Order: j.p("m", 3), CmpN: cmpN, N: j.p("n", u), KU: intU(u),
 		Fresh: func(i int) Val { return Val(i) }, KCmp: intCmp(cmpN), VCmp: func(a, b Val) int { return int(a - b) }, PropsL: kvProps,
 		Probes: func(live []int) []int { return []int{-2, u + 2} }}
+	if j.p("jsonops", 0) == 1 && (kind == "hashmap" || kind == "linkedhashmap") {
+		sys.JSONTexts = []string{`{}`, `null`, `{"0":5,"1":5}`, `{"1":null}`}
+	}
 	if j.s("ctor", "") == "default" {
 		// the default constructors New[K cmp.Ordered]() (natural order through cmp.Compare)
 		sys.Label = "/New()"
@@ -193,8 +202,8 @@ func kvTreeJobs(prop string, q bool, add func(kind, id string, w int, s map[stri
 		m, n int
 	}
 	trees := []tb{
-		{"rbt", 0, pick(12, 16)}, {"avl", 0, pick(13, 17)}, {"treemap", 0, pick(10, 13)}, {"treeset", 0, pick(10, 13)},
-		{"btree", 3, pick(14, 20)}, {"btree", 4, pick(13, 18)}, {"btree", 5, pick(21, 24)}, {"btree", 6, pick(24, 28)},
+		{"rbt", 0, pick(12, 16)}, {"avl", 0, pick(13, 17)}, {"treemap", 0, pick(10, 13)}, {"treeset", 0, pick(10, 13)}, 
+		{"btree", 3, pick(18, 24)}, {"btree", 4, pick(15, 23)}, {"btree", 5, pick(21, 24)}, {"btree", 6, pick(24, 28)},
 	}
 	if !q {
 		trees = append(trees, tb{"btree", 7, 36}, tb{"btree", 8, 20}, tb{"btree", 9, 20})
@@ -218,3 +227,121 @@ func kvTreeJobs(prop string, q bool, add func(kind, id string, w int, s map[stri
 		}
 	}
 }
+
+// ---- history families at larger sizes (bidirectional tree maps) --------------------------------
+//
+// The product of the two trees' shapes makes a fixpoint search of TreeBidiMap infeasible beyond a
+// handful of pairs, but defects of the underlying tree need ten or more entries.  Instead of the
+// fixpoint this job enumerates a FAMILY of histories exhaustively: every fill order of u pairs from
+// {ascending, descending, zig-zag from both ends, inside-out} x value order {same, reversed, rotated},
+// followed by every single Remove(k) and every single Put(k, v) over the whole universe (exact
+// repeat, same key new value, new value held elsewhere, both colliding).  Every step runs the box's
+// transition oracle, every final state its state oracle.
+func kvFamilyJob(j Job, r *JobResult) {
+	u := j.p("u", 24)
+	jj := j
+	jj.P = map[string]int{"u": u, "vu": u}
+	for k, v := range j.P {
+		if k != "u" {
+			jj.P[k] = v
+		}
+	}
+	sys := kvSysFromJob(jj)
+	orders := map[string][]int{}
+	asc := intRange(0, u-1)
+	desc := make([]int, u)
+	zig := make([]int, 0, u)
+	inside := make([]int, 0, u)
+	for i := 0; i < u; i++ {
+		desc[i] = u - 1 - i
+	}
+	for lo, hi := 0, u-1; lo <= hi; lo, hi = lo+1, hi-1 {
+		zig = append(zig, lo)
+		if hi != lo {
+			zig = append(zig, hi)
+		}
+	}
+	for d := 0; len(inside) < u; d++ {
+		for _, k := range []int{u/2 - d - 1, u/2 + d} {
+			if k >= 0 && k < u && len(inside) < u {
+				dup := false
+				for _, x := range inside {
+					if x == k {
+						dup = true
+					}
+				}
+				if !dup {
+					inside = append(inside, k)
+				}
+			}
+		}
+	}
+	orders["ascending"], orders["descending"], orders["zigzag"], orders["inside-out"] = asc, desc, zig, inside
+	valueOf := map[string]func(k int) int{
+		"same":     func(k int) int { return k },
+		"reversed": func(k int) int { return u - 1 - k },
+		"rotated":  func(k int) int { return (k + u/3) % u },
+	}
+	r.St = Stats{Nested: map[string]int{}, PerSize: map[int]int{}, OpsHistogram: map[string]int{}, Exhaustive: true}
+	run := func(path []Op, what string) *Viol {
+		inflightSeq.Add(1)
+		in := sys.New()
+		for i, o := range path {
+			desc := in.Describe(o)
+			if v := safeStep(in, o, sys.Props()); v != nil {
+				v.Msg = fmt.Sprintf("%s, step %d %s: %s", what, i, desc, v.Msg)
+				return v
+			}
+		}
+		if v := safeCheck(in.CheckState, sys.Props(), "state observers"); v != nil {
+			v.Msg = what + ": " + v.Msg
+			return v
+		}
+		r.St.Transitions++
+		return nil
+	}
+	report := func(v *Viol, path []Op) bool {
+		if v == nil && j.Prop == "C17" {
+			v = outGuardCheck("history family")
+		}
+		if v != nil && v.Has(j.Prop) {
+			r.Found = &Found{V: v, Path: path, Calls: describePath(sys, path, nil)}
+			r.St.Exhaustive = false
+			return true
+		}
+		return false
+	}
+	if j.Replay != nil {
+		report(run(j.Replay.Path, "replayed history"), j.Replay.Path)
+		return
+	}
+	for on, ord := range orders {
+		for vn, vf := range valueOf {
+			var fill []Op
+			for _, k := range ord {
+				fill = append(fill, op("put", k, vf(k)))
+			}
+			what := fmt.Sprintf("%d pairs filled %s, values %s", u, on, vn)
+			if report(run(fill, what), fill) {
+				return
+			}
+			r.St.States++
+			for k := 0; k < u; k++ {
+				p := append(append([]Op{}, fill...), op("del", k))
+				if report(run(p, what+", then one Remove"), p) {
+					return
+				}
+				for v := 0; v < u; v++ {
+					p := append(append([]Op{}, fill...), op("put", k, v))
+					if report(run(p, what+", then one Put"), p) {
+						return
+					}
+				}
+			}
+			r.St.Nested["history_families"]++
+		}
+	}
+	r.St.Samples = []any{map[string]any{"system": sys.Name(), "family": "fill orders {ascending, descending, zigzag, inside-out} x value orders {same, reversed, rotated}, then every single Remove(k) and every single Put(k, v)", "pairs": u}}
+}
+
+func init() { jobKinds["kvfamily"] = kvFamilyJob }
